@@ -446,6 +446,29 @@ pub fn main(subjects: Vec<Box<dyn DynSubject>>, lay: (Layouts, BTreeMap<String, 
             }
         }
     }
+    // calling contexts that do not depend on the type (once per run; also when a crash is being attributed to the
+    // first subject, so that an abort in here reproduces)
+    if u.label == "fixed" && from == 0 && only.map_or(true, |o| o == 0) && replay.as_ref().map_or(true, |r| !r["env"]["context"].is_null()) {
+        if prop == "C13" {
+            crate::checks::contexts::c13_thread_exit(&mut rep);
+        }
+        if prop == "C14" && crate::checks::contexts::c14_reader_contexts(&mut rep) {
+            // a thread is blocked inside the library: write the report and leave without touching it again
+            let mut j = rep.to_json();
+            j["wall_s"] = json!(start.elapsed().as_secs_f64());
+            j["subjects"] = json!(idxs.len());
+            j["universe"] = json!(u.label);
+            std::fs::write(&out, serde_json::to_string(&j).unwrap()).unwrap();
+            std::process::exit(0);
+        }
+    }
+    if (prop == "C01" || prop == "C07") && u.label == "extra" && only.is_none() && from == 0 && replay.as_ref().map_or(true, |r| !r["env"]["giant"].is_null()) {
+        let mut g = crate::checks::bigfile::run_giant(seed);
+        for f in g.failures.iter_mut() {
+            f.property = prop.clone();
+        }
+        rep.merge(g);
+    }
     if prop == "C08" && u.label == "extra" && only.is_none() && from == 0 && replay.as_ref().map_or(true, |r| !r["env"]["bigfile"].is_null()) {
         let t0 = std::time::Instant::now();
         rep.merge(crate::checks::bigfile::run(tier, seed, &tmp, replay.as_ref()));
